@@ -105,6 +105,9 @@ where evalReqScan (sc : ScanSt) (req : List String) : Option (ScanSt × Obs × O
   match req with
   | "cc" :: rest => evalCC sc rest
   | "pn" :: rest => evalPN sc rest
+  | ["cnpred", n] => do
+      let n ← nat? n
+      some (sc, modelCnPred n, some (specCnPred n))
   | ["enc14", impl, ch, cn, v] => do
       let (ch, cn, v) := (← nat? ch, ← nat? cn, ← nat? v)
       some (sc, modelEnc14 impl ch cn v, some (specEnc14 ch cn v))
